@@ -439,6 +439,13 @@ func genConfig(r *mon.Rng, dir string, p ports, st *state) string {
 		}
 		b.WriteString("]\n")
 	}
+	if r.Chance(1, 6) {
+		// a cloudWatch route (only configurable from the file): publishing fails offline, its buffer, ticker and
+		// shutdown path are what is exercised
+		st.routes = append(st.routes, "cw")
+		fmt.Fprintf(&b, "[[route]]\nkey = \"cw\"\ntype = \"cloudWatch\"\nregion = \"us-east-1\"\nnamespace = \"ns\"\nbufSize = %d\nflushMaxWait = %d\nflushMaxSize = %d\nblocking = %v\n",
+			r.PickInt([]int{0, 1, 10, 1000}), r.PickInt([]int{0, 1, 100, 100, -1}), r.PickInt([]int{0, 1, 20, 20, -1}), r.Chance(1, 5))
+	}
 	return b.String()
 }
 
@@ -577,6 +584,38 @@ func sendTCP(port int, data []byte, r *mon.Rng) {
 			tc.SetLinger(0) // abortive close
 		}
 	}
+}
+
+// underTraffic runs f while valid lines are streaming in on the plain-text port over several connections, so that
+// dispatchers are inside the table (holding whatever snapshot they loaded) when f changes it.
+func underTraffic(port int, r *mon.Rng, f func()) {
+	var wg sync.WaitGroup
+	for c := 0; c < 3; c++ {
+		data := goodTraffic(r, 1500)
+		wg.Add(1)
+		go func() {
+			defer wg.Done()
+			conn, err := dial(port)
+			if err != nil {
+				return
+			}
+			defer conn.Close()
+			conn.SetWriteDeadline(time.Now().Add(5 * time.Second))
+			for len(data) > 0 {
+				n := 4096
+				if n > len(data) {
+					n = len(data)
+				}
+				if _, err := conn.Write(data[:n]); err != nil {
+					return
+				}
+				data = data[n:]
+			}
+		}()
+	}
+	time.Sleep(5 * time.Millisecond)
+	f()
+	wg.Wait()
 }
 
 func sendUDP(port int, data []byte) {
@@ -722,6 +761,9 @@ func runChild(res *mon.Result, bin string, idx int, base string) {
 					res.LogCase("child %d batch %d: + %q", idx, b, c2)
 					rl.adminSend(c + "\n" + c2)
 					res.Count("admin_commands_sent", 1)
+				} else if strings.HasPrefix(c, "delRoute ") {
+					underTraffic(p.plain, r, func() { rl.adminSend(c) })
+					res.Count("route_deletions_under_traffic", 1)
 				} else {
 					rl.adminSend(c)
 				}
@@ -785,13 +827,22 @@ func runChild(res *mon.Result, bin string, idx int, base string) {
 			desc = "http DELETE " + strings.Join(paths, " , ")
 			history = append(history, desc)
 			res.LogCase("child %d batch %d: %s", idx, b, desc)
-			for _, pth := range paths {
-				req, _ := http.NewRequest("DELETE", fmt.Sprintf("http://127.0.0.1:%d%s", p.http, pth), nil)
-				cl := &http.Client{Timeout: 5 * time.Second}
-				if resp, err := cl.Do(req); err == nil {
-					io.Copy(io.Discard, resp.Body)
-					resp.Body.Close()
+			del := func() {
+				for _, pth := range paths {
+					req, _ := http.NewRequest("DELETE", fmt.Sprintf("http://127.0.0.1:%d%s", p.http, pth), nil)
+					cl := &http.Client{Timeout: 5 * time.Second}
+					if resp, err := cl.Do(req); err == nil {
+						io.Copy(io.Discard, resp.Body)
+						resp.Body.Close()
+					}
 				}
+			}
+			if strings.HasPrefix(path, "/routes/") {
+				// routes and destinations are taken away while dispatchers are busy with them
+				underTraffic(p.plain, r, del)
+				res.Count("route_deletions_under_traffic", 1)
+			} else {
+				del()
 			}
 			res.Count("http_admin_requests", 1)
 		}
